@@ -56,7 +56,15 @@ THEOREMS = [
     "XalanModel.Props.C04.content_nonchar_counterexample",
     "XalanModel.Props.C04.generated_fixes_consistent",
     "XalanModel.Props.C04.repairs_on_witnesses",
+    "XalanModel.Props.C04.generated_cdata_current",
+    "XalanModel.Props.C04.cdata_roundtrip",
     "XalanModel.Props.C04.document_structure",
+    "XalanModel.Props.C04.document_encoding",
+    "XalanModel.Props.C04.document_roundtrip",
+    "XalanModel.Props.C04.generated_doc_hyp",
+    "XalanModel.Props.C04.indent_off_same",
+    "XalanModel.Props.C04.indent_only_inserts_whitespace",
+    "XalanModel.Props.C04.indent_never_after_text",
     "XalanModel.Props.C04.comment_roundtrip",
     "XalanModel.Props.C04.comment_repair_wellformed",
     "XalanModel.Props.C04.pi_repair_wellformed",
@@ -73,18 +81,50 @@ VERSIONS = ["1.0", "1.1"]
 
 
 def request_line(kind, enc, ver, doc):
+    """`ver` may carry the header options after a bar: "1.0|decl=0,sa=-,sys=<hex>,pub=<hex>" (-> docx request)"""
+    if "|" in ver:
+        v, o = ver.split("|", 1)
+        return "docx %s %s %s %s %s" % (kind, enc, v, o, " ".join(G.events(doc)))
     return "doc %s %s %s %s" % (kind, enc, ver, " ".join(G.events(doc)))
+
+
+def gen_opts(r, enc):
+    decl = 0 if (enc in ("UTF-8", "UTF-16", "US-ASCII") and r.chance(1, 2)) else 1
+    sa = r.choice(["-", "-", G.hx(G.u("yes")), G.hx(G.u("no"))])
+    sys_ = r.choice(["-", G.hx(G.u("a.dtd")), G.hx(G.u("http://x/y.dtd"))])
+    pub = r.choice(["-", "-", G.hx(G.u("-//W3C//DTD XHTML 1.0 Strict//EN")), G.hx(G.u("-//X//DTD y//EN"))])
+    ind = ",ind=%d" % r.range(0, 3) if r.chance(1, 2) else ""
+    return "decl=%d,sa=%s,sys=%s,pub=%s%s" % (decl, sa, sys_, pub, ind)
+
+
+def equal_modulo_indent(got, exp):
+    """with indent="yes": the re-parse may contain additional text nodes made of line feeds and spaces only, and only at
+    places where the tree has no text node (no text neighbour is touched); everything else must be identical"""
+    i = j = 0
+    ws = lambda tok: tok.startswith("t:") and all(u in (10, 32) for u in G.unhx(tok[2:]))
+    while i < len(got) or j < len(exp):
+        if i < len(got) and j < len(exp) and got[i] == exp[j]:
+            i += 1; j += 1
+        elif i < len(got) and ws(got[i]) and not (j < len(exp) and exp[j].startswith("t:")):
+            i += 1
+        else:
+            return False, (i, j)
+    return True, None
 
 
 def judge(kind, enc, ver, doc, reply):
     """The property, evaluated on the implementation's own reply, independent of the model.
     Returns None (holds) or (key, what)."""
+    indenting = "|" in ver and ",ind=" in ver
+    ver = ver.split("|")[0]
     unrep, feats = G.features(doc, enc, ver)
     tag = "%s/%s/%s" % ("unicode" if kind == "U" else "legacy", "other-encoding" if enc in ("ISO-8859-1", "US-ASCII", "UTF-32BE") else enc, ver)
     allf = feats | unrep
     # "+supplementary" only says that a surrogate pair is present; it is kept in the key only when nothing else is
     core = set(f for f in allf if not f.endswith("+supplementary"))
     fl = ",".join(sorted(core or allf)) or "plain"
+    if indenting:
+        fl += "} {indent"
     if reply.startswith("err"):
         if unrep:
             return None
@@ -102,6 +142,8 @@ def judge(kind, enc, ver, doc, reply):
         return ("not-well-formed %s {%s}" % (tag, fl), "output is not well-formed XML: " + parse[:200])
     got = parse.split()[1:]
     exp = G.expected(doc)
+    if indenting and equal_modulo_indent(got, exp)[0]:
+        return None
     if got != exp:
         k = 0
         while k < min(len(got), len(exp)) and got[k] == exp[k]:
@@ -362,11 +404,16 @@ def run(ctx):
         doc = G.gen_doc(r, dirty)
         enc = r.choice(ENCODINGS)
         ver = r.weighted([("1.0", 3), ("1.1", 2)])
-        cases.append(("U", enc, ver, doc, "gen"))
+        if r.chance(1, 4):
+            # prolog variants: omit-xml-declaration, standalone, doctype-system / doctype-public (XHTML: " />")
+            cases.append(("U", enc, ver + "|" + gen_opts(r, enc), doc, "gen"))
+            ctx.hist["prolog-variant"] = ctx.hist.get("prolog-variant", 0) + 1
+        else:
+            cases.append(("U", enc, ver, doc, "gen"))
         if r.chance(1, 8) and enc != "UTF-32BE":
             # the legacy serializer is run on the four classic encodings only (its maximum-character table does not
             # know UTF-32 and it escapes everything above 0x7F there, also inside comments and names)
-            cases.append(("L", enc, ver, legacy_safe(doc), "gen"))
+            cases.append(("L", enc, ver.split("|")[0], legacy_safe(doc), "gen"))
     repair_correspondence(ctx, model, work, r)
     cases += boundary_cases(ctx.thorough)
     if ctx.thorough:
@@ -382,6 +429,7 @@ def run(ctx):
         j = judge(k, e, v, small, "crash")
         ctx.fail(j[0], "harness aborted (sanitizer/crash): " + ierr[-800:], request_line(k, e, v, small))
         cases = cases[:bad]
+    reader_correspondence(ctx, model, work, cases, il)
     agree = True
     disagreements = []
     fails = []
@@ -389,12 +437,12 @@ def run(ctx):
     for idx, (k, e, v, d, src) in enumerate(cases):
         ireply = il[idx]
         mreply = ml[idx] if idx < len(ml) else "nomodel " + merr[-200:]
-        unrep, feats = G.features(d, e, v)
+        unrep, feats = G.features(d, e, v.split("|")[0])
         big = ireply.startswith("ok ") and len(ireply.split()[1]) > 1024
         nontriv = bool(feats) or big or any(ch[0] in ("c", "m", "p") for ch in d[3])
         ctx.case(nontrivial_key=lines[idx] if nontriv else None,
                  sample=lines[idx][:300] if idx in (len(CORPUS), len(CORPUS) + 1, 0, 1) else None,
-                 cls="%s/%s/%s" % (k, e, v))
+                 cls="%s/%s/%s" % (k, e, v.split("|")[0]))
         for f in feats:
             ctx.hist["feat:" + f] = ctx.hist.get("feat:" + f, 0) + 1
         if ireply.startswith("err"):
@@ -492,6 +540,51 @@ def repair_correspondence(ctx, model, work, r):
                "correspondence", ok and not bad, ("rc=%d comments=%d pis=%d " % (rc, len(got_c), len(got_p))) + json.dumps(bad[:3]) + out[-300:] if not (ok and not bad) else "")
 
 
+def reader_correspondence(ctx, model, work, cases, il):
+    """the specification reader of the proofs (Spec.readDoc) against Xerces on the *real* output: wherever the Lean
+    reader returns a tree it must be the tree Xerces reports (it is a restriction of a conforming parser)"""
+    codec = {"UTF-8": "utf-8", "UTF-16": "utf-16", "ISO-8859-1": "latin-1", "US-ASCII": "ascii", "UTF-32BE": "utf-32-be"}
+    reqs, meta = [], []
+    for idx, (k, e, v, d, src) in enumerate(cases):
+        if k != "U" or idx >= len(il) or not il[idx].startswith("ok ") or " | wf" not in il[idx]:
+            continue
+        w = il[idx].split()
+        try:
+            text = bytes.fromhex(w[1]).decode(codec[e], "surrogatepass")
+        except Exception:
+            continue
+        if text.startswith("\ufeff"):
+            text = text[1:]
+        if text.startswith("<?xml"):
+            text = text[text.index("?>") + 2:]
+        text = text.lstrip("\n")
+        if text.startswith("<!DOCTYPE"):
+            text = text[text.index(">") + 1:].lstrip("\n")
+        text = text.rstrip("\n ")
+        units = G.u(text)
+        reqs.append("read %s %s" % (v.split("|")[0], G.hx(units)))
+        meta.append((idx, il[idx].split(" | ", 1)[1].split()[1:]))
+        if len(reqs) >= (4000 if ctx.thorough else 800):
+            break
+    if not reqs:
+        return
+    req = os.path.join(work, "c04_read.req")
+    with open(req, "w") as f:
+        f.write("\n".join(reqs) + "\n")
+    p = subprocess.run([model], stdin=open(req, "rb"), stdout=subprocess.PIPE)
+    ml = p.stdout.decode().split("\n")
+    bad, trees = [], 0
+    for n, (idx, xer) in enumerate(meta):
+        r = ml[n] if n < len(ml) else "nomodel"
+        if r.startswith("tree"):
+            trees += 1
+            if r.split()[1:] != xer:
+                bad.append({"request": reqs[n][:300], "lean": r[:300], "xerces": " ".join(xer)[:300]})
+    ctx.extra["spec_reader"] = {"documents": len(reqs), "read_by_lean_reader": trees, "differ_from_xerces": len(bad)}
+    ctx.oblige("correspondence: Spec.readDoc (the reader of document_roundtrip) = Xerces on %d real outputs (%d read)" % (len(reqs), trees),
+               "correspondence", not bad and trees > 0, json.dumps(bad[:2]))
+
+
 def boundary_cases(thorough):
     """directed: every representative of a multi-unit write placed so that it starts at each offset 505..520
     (and 1017..1032) of the writer's 512-entry buffer, as text, attribute value, CDATA and comment"""
@@ -568,7 +661,7 @@ def replay(ctx, path):
     print("impl:   ", i)
     print("model:  ", m)
     w = line.split()
-    doc = parse_request(w[4:])
+    doc = parse_request(w[5:] if w[0] == "docx" else w[4:])
     j = judge(w[1], w[2], w[3], doc, i)
     print("specification verdict:", "holds" if j is None else "VIOLATED: %s -- %s" % j)
     return 0 if j is None else 1
